@@ -270,7 +270,8 @@ class RealRun:
                           inheriting the AstMap `parent` of an earlier match
     """
 
-    def __init__(self, pattern, program, api="find_matches", anchor=(), parent=None, key=None, use_previous=False):
+    def __init__(self, pattern, program, api="find_matches", anchor=(), parent=None, key=None, use_previous=False,
+                 first=True):
         if isinstance(program, str):
             program = Program(program)
         self.program = program
@@ -309,7 +310,8 @@ class RealRun:
             if api == "find_matches":
                 raw = program.find_matches(pattern)
                 # find_match must be find_matches[0]: on every small program, on a quarter of the large ones
-                if program.size <= 60 or (len(pattern) + program.size) % 4 == 0:
+                # (first=False: the exhaustive small-scope streams ask it for a quarter of their cases)
+                if (first and program.size <= 60) or (len(pattern) + program.size) % 4 == 0:
                     first = program.find_match(pattern)
                     if (first is None) != (not raw) or (raw and canon_shape(first) != canon_shape(raw[0])):
                         self.first_differs = True
@@ -331,15 +333,23 @@ class RealRun:
         if raw:
             # recover the matcher's own pattern root from a mapping key that belongs to THIS pattern
             inherited = set() if parent is None or not use_previous else {id(k) for k in parent.mappings}
-            k = next((k for k in raw[0].mappings if id(k) not in inherited), None)
-            if k is None:
+            # (a continued match may carry pattern nodes of a match OTHER than the one it was asked to continue: the
+            # root is the one whose tree is this pattern's)
+            roots = {}
+            for k in raw[0].mappings:
+                if id(k) in inherited:
+                    continue
+                while k.parent is not None:
+                    k = k.parent
+                roots.setdefault(id(k), k)
+            if not roots:
                 self.exc = "match-pairs-no-pattern-node"     # an AstMap that does not mention the pattern at all
                 return
-            while k.parent is not None:
-                k = k.parent
-            pindex = index_of(k)
-            if len(pindex) != tree_size(self.ptree):
+            want = _kinds(self.ptree)
+            k = next((k for k in roots.values() if _kinds(tree_of(k, (), {})) == want), None)
+            if k is None:
                 raise RuntimeError("pattern tree rebuilt differently")
+            pindex = index_of(k)
             self.matches = [canon_real_match(m, pindex, sindex, restrict=bool(inherited)) for m in raw]
         else:
             self.matches = []
@@ -383,6 +393,16 @@ class RealRun:
         ms = self.embed_matches()
         return ("embed " + self.penc + " " + self.senc + " " + str(len(ms)) + " " +
                 " ".join(enc_match(m) for m in ms))
+
+
+def _kinds(t, out=None):
+    """node kinds of an abstract tree in preorder"""
+    if out is None:
+        out = []
+    out.append(t[1])
+    for k in t[4]:
+        _kinds(k, out)
+    return out
 
 
 def inherited_binds(parent):
@@ -618,6 +638,15 @@ BINOPS = ["+", "+", "*", "-", "/", "%"]
 CMPOPS = ["<", "==", ">=", "!=", "in"]
 
 
+_ODD = []
+
+
+def odd_plain_names():
+    if not _ODD:
+        _ODD.extend(n for n in boundary_spellings() if spelling_class(n) == "plain" and "_" in n)
+    return _ODD
+
+
 class Gen:
     """Seeded generator of small Python programs over a small vocabulary (so that patterns taken from one
     program often embed in another in several ways)."""
@@ -626,6 +655,9 @@ class Gen:
         self.rng = rng
 
     def name(self):
+        # now and then an identifier spelled almost like a placeholder (concrete by the property's reading)
+        if self.rng.random() < 0.05:
+            return self.rng.choice(odd_plain_names())
         return self.rng.choice(NAMES)
 
     def expr(self, d=0):
@@ -650,11 +682,13 @@ class Gen:
         if r < 0.88:
             return "[%s]" % ", ".join(self.expr(d + 1) for _ in range(self.rng.randint(0, 3)))
         if r < 0.91:
-            return "{%s}" % ", ".join("%s: %s" % (self.atom(d + 1), self.atom(d + 1)) for _ in range(self.rng.randint(1, 2)))
+            # items are key: value pairs or ** spreads, in every position (Dict.keys holds None for a spread)
+            return "{%s}" % ", ".join("**%s" % self.atom(d + 1) if self.rng.random() < 0.35 else
+                                      "%s: %s" % (self.atom(d + 1), self.atom(d + 1)) for _ in range(self.rng.randint(1, 3)))
         if r < 0.94:
             return "%s %s %s" % (self.atom(d + 1), self.rng.choice(["and", "or"]), self.atom(d + 1))
         if r < 0.96:
-            return "(lambda %s: %s)" % (self.rng.choice(["", "a", "a, b=1", "*a"]), self.expr(d + 1))
+            return "(lambda %s: %s)" % (self.rng.choice(["", "a", "a, b=1", "*a", "*, a, b=x", "a, *, b=y, x", "*a, b, x=1, y"]), self.expr(d + 1))
         if r < 0.98:
             return "-%s" % self.atom(d + 1)
         return "[%s for %s in %s]" % (self.expr(d + 1), self.name(), self.atom(d + 1))
@@ -695,7 +729,7 @@ class Gen:
         if r < 0.73:
             return "%swhile %s:\n%s" % (pad, self.expr(1), self.block(d + 1, ind + 1))
         if r < 0.90:
-            args = self.rng.choice(["", "a", "a, b", "x, y=1", "*a, **b"])
+            args = self.rng.choice(["", "a", "a, b", "x, y=1", "*a, **b", "a", "a, b", "*, a, b=x", "x, *a, b, y=g(1)", "x=1, *, a=y, b"])
             body = self.block(d + 1, ind + 1)
             if self.rng.random() < 0.5:
                 body += "%s    return %s\n" % (pad, self.expr(1))
@@ -1303,13 +1337,16 @@ class _Deriver:
         self.base = "expr:" + type(node).__name__
         return node
 
-    def step_wild(self, named=None, exclude=()):
+    def wild_candidates(self, exclude=()):
+        return [c for c in _child_exprs(self.frag)
+                if not (isinstance(c[3], ast.Name) and (c[3].id.startswith("_"))) and id(c[3]) not in exclude]
+
+    def step_wild(self, named=None, exclude=(), pick=None):
         rng = self.rng
-        cands = [c for c in _child_exprs(self.frag)
-                 if not (isinstance(c[3], ast.Name) and (c[3].id.startswith("_"))) and id(c[3]) not in exclude]
-        if not cands:
+        cands = self.wild_candidates(exclude)
+        if not cands or (pick is not None and pick >= len(cands)):
             return False
-        parent, field, idx, node = rng.choice(cands)
+        parent, field, idx, node = rng.choice(cands) if pick is None else cands[pick]
         if named is None:
             named = rng.random() >= 0.5
         if not named:
@@ -1351,8 +1388,13 @@ class _Deriver:
         if not forced and self.rng is not None and self.rng.random() < 0.2:
             # other spellings a _var_ placeholder may have (anything matching ^_[^_].*_$)
             key = self.rng.choice(["_%s1_", "_%s_v_", "_V%s_", "_%s__x_", "_%s\u00e9_"]) % x
-        if not allow_existing and (key in ids or any(getattr(n, "id", None) == key or getattr(n, "arg", None) == key
-                                                     for n in ast.walk(frag))):
+        # the new placeholder name must not be spelled anywhere in the fragment already - not as a Name / parameter, nor
+        # as a def / class name, attribute, keyword, alias, handler or global name (a program may well call a function
+        # `_a_`: in the pattern that IS a placeholder, and reusing it for another identifier is not a consistent renaming)
+        if not allow_existing and (key in ids or any(
+                key in (getattr(n, "id", None), getattr(n, "arg", None), getattr(n, "name", None), getattr(n, "attr", None),
+                        getattr(n, "asname", None)) or key in (getattr(n, "names", None) or [])
+                for n in ast.walk(frag) if not isinstance(n, ast.alias) or key in (n.name, n.asname))):
             return False
         for n in ast.walk(frag):
             if isinstance(n, ast.Name) and n.id == x:
@@ -1530,6 +1572,198 @@ def derive_keep(code, tree, keep, names, rng=None):
     return dv.finish()
 
 
+# --------------------------------------------------------------------------
+# field scope: programs that visit the AST fields a sub-expression / identifier can stand in - above all the LIST
+# fields that may hold None beside nodes (Dict.keys of a display with ** spreads, arguments.kw_defaults of keyword-only
+# parameters without a default: the only two in CPython's grammar) - with EVERY sub-expression replaced in turn by an
+# __expr__ placeholder and every identifier by a _var_ placeholder.
+
+def _seqs(items, lo, hi):
+    import itertools as _it
+    for n in range(lo, hi + 1):
+        for c in _it.product(items, repeat=n):
+            yield c
+
+
+def field_programs():
+    """(program, tag).  Dict displays: every sequence of 1-3 items over {** spread, key: value}; keyword-only parameter
+    lists: every sequence of 1-3 parameters over {no default, default}, after `*` / `*rest`, with and without
+    positional parameters (with and without defaults) before, in def / async def / lambda."""
+    out = []
+    for seq in _seqs(("s", "p"), 1, 3):
+        items, n = [], 0
+        for it in seq:
+            n += 1
+            items.append("**d%d" % n if it == "s" else "%s: v%d" % (("k%d" % n, "'key%d'" % n, str(n))[n % 3], n))
+        out.append(("t = {%s}" % ", ".join(items), "dict:" + "".join(seq)))
+    out.append(("print({**d1, (a, b): [c], **f(x)})", "dict:sps-nested"))
+    out.append(("t = {**{**d1, k: v}, j: {**d2, i: w}}", "dict:nested"))
+    heads = [("def f({A}):\n    return {R}", "def"), ("async def f({A}):\n    return {R}", "asyncdef"),
+             ("t = lambda {A}: {R}", "lambda")]
+    pre = [("*", ""), ("*rest", ""), ("p, q=Z, *", "pq"), ("p, /, q=Z, *rest", "posonly")]
+    count = 0
+    for seq in _seqs(("n", "d"), 1, 3):
+        params, n = [], 0
+        for it in seq:
+            n += 1
+            params.append("k%d" % n if it == "n" else "k%d=%s" % (n, ("X%d" % n, "g(%d)" % n, "None")[n % 3]))
+        for star, ptag in (pre if len(seq) <= 2 else pre[count % len(pre):][:1]):
+            head, htag = heads[count % len(heads)]
+            count += 1
+            args = star + ", " + ", ".join(params) + (", **kw" if count % 4 == 0 else "")
+            out.append((head.format(A=args, R="k1"), "kwonly:%s:%s:%s" % (htag, ptag or "bare", "".join(seq))))
+    # the other places an expression can stand in (optional fields next to list fields)
+    for src, tag in [
+            ("t = f(a, *b, k=c, **d)", "call"), ("t = x[a:b:c]", "slice"), ("t = x[:b]", "slice"), ("t = x[a:, ::c]", "slice"),
+            ("t = a < b <= c != d", "compare"), ("t = [a for b in c if d if e for g in h]", "comp"),
+            ("t = {a: b for c in d}", "dictcomp"), ("t = f'{a}{b!r:>{c}}'", "fstring"), ("t = a if b else c", "ifexp"),
+            ("with a as b, c, d as (e, g):\n    pass", "with"), ("raise a from b", "raise"), ("assert a, b", "assert"),
+            ("try:\n    pass\nexcept a:\n    pass\nexcept (b, c) as e:\n    pass\nexcept:\n    pass", "try"),
+            ("x: a = b", "annassign"), ("x: a", "annassign"), ("def f(a: b = c, *d: e, g: h = i, **j: k) -> m:\n    pass", "annotations"),
+            ("@a\n@b(c)\nclass C(d, e=g, **h):\n    pass", "classdef"), ("@a\ndef f():\n    yield b\n    yield\n    return", "decorators"),
+            ("del a, b[c]", "del"), ("a, *b = c", "starred"), ("a = b = c, d", "assign"), ("for a, b in c:\n    pass\nelse:\n    d", "for"),
+            ("t = (a := b) + (yield)", "namedexpr"), ("global a, b", "global"), ("import a.b as c, d", "import"),
+            ("from . import a as b", "importfrom"), ("t = a @ b // c ** d", "binop"), ("t = not a or -b and ~c", "boolop")]:
+        out.append((src, "field:" + tag))
+    return out
+
+
+def field_scope(rng):
+    """yields (program, Derived, tag): one placeholder per derived pattern - every candidate sub-expression -> __e0__,
+    every identifier -> _var_; on the statement itself and, every third time, with an unrelated statement around."""
+    for n, (src, tag) in enumerate(field_programs()):
+        code = src + "\n"
+        if n % 3 == 2:
+            code = "z = 0\n" + code + "print(z)\n"
+        try:
+            tree = ast.parse(code)
+        except SyntaxError:
+            continue
+        probe = _Deriver(rng, code, tree)
+        if n % 3 == 2:
+            probe.take_statement(probe.work.body[1])
+        n_c, ids = len(probe.wild_candidates()), probe.identifiers()
+        for i in range(n_c):
+            dv = _Deriver(rng, code, tree)
+            if n % 3 == 2:
+                dv.take_statement(dv.work.body[1])
+            if dv.step_wild(named=True, pick=i):
+                d = dv.finish()
+                if d is not None:
+                    yield code, d, tag + ":exp"
+        for x in ids:
+            dv = _Deriver(rng, code, tree)
+            if n % 3 == 2:
+                dv.take_statement(dv.work.body[1])
+            if dv.step_var(x, key="_%s_" % x):
+                d = dv.finish()
+                if d is not None:
+                    yield code, d, tag + ":var"
+
+
+# --------------------------------------------------------------------------
+# identifier spellings around the placeholder syntax (_name_ / __expr__ / ___): every count 0-3 of leading and of
+# trailing underscores around a core with and without an inner underscore, the pure-underscore names, dunder names -
+# as CONCRETE names of programs and of patterns, in every position an identifier can stand in.  A concrete name must
+# match only itself; which spellings are placeholders is decided by the Lean model / checkMatch, not here.
+
+def boundary_spellings():
+    out = []
+    for core in ("a", "ab", "a_b"):
+        for i in range(4):
+            for j in range(4):
+                out.append("_" * i + core + "_" * j)
+    for i in range(3):
+        for j in range(3):
+            out.append("_" * i + "a__b" + "_" * j)          # a DOUBLE underscore inside
+    out += ["_", "__", "___", "____", "_____", "__init__", "__name__", "_1", "_1_", "_total_count", "_load_data",
+            "_\u00e9", "_\u00e9_", "x", "i"]
+    return list(dict.fromkeys(out))
+
+
+def spelling_class(name):
+    """the reading of the property text (`_name_`, `__expr__`, `___`) - used only to keep placeholder-spelled names
+    out of the random program vocabulary"""
+    if name == "___":
+        return "wild"
+    if len(name) >= 4 and name.startswith("__") and name.endswith("__"):
+        return "exp"
+    if len(name) >= 3 and name[0] == "_" and name[1] != "_" and name.endswith("_"):
+        return "var"
+    return "plain"
+
+
+def spelling_rivals(n):
+    """other identifiers the program has where the pattern has n: one underscore more / less at either end, an inner
+    underscore more / less, a plain name"""
+    out = [n + "_", "_" + n, "x"]
+    if n.endswith("_") and len(n) > 1:
+        out.append(n[:-1])
+    if n.startswith("_") and len(n) > 1:
+        out.append(n[1:])
+    if "_" in n.strip("_"):
+        out.append(n.replace("_", "", n.count("_")) if False else n.strip("_").replace("_", "").join((n[:len(n) - len(n.lstrip("_"))], n[len(n.rstrip("_")):])))
+    return [m for m in dict.fromkeys(out) if m != n and m.isidentifier()]
+
+
+# (pattern with the concrete identifier {n}, program with {m} in the same place, position tag)
+SPELL_TEMPLATES = [
+    ("{n} = 0", "x = 1\n{m} = 0\n", "store"),
+    ("print({n})", "print({m})\n", "load"),
+    ("{n} = {n} + ___", "{m} = {m} + 1\n", "twice"),
+    ("{n}(___)", "print({m}(5))\n", "call"),
+    ("def {n}(___):\n    pass", "def {m}(a):\n    return a\n", "def"),
+    ("def ___({n}):\n    pass", "def f({m}):\n    return {m}\n", "param"),
+    ("class {n}:\n    pass", "class {m}:\n    x = 1\n", "class"),
+    ("___.{n}", "print(box.{m})\n", "attr"),
+    ("_acc_ = 0\n{n} = 2", "k = 0\n{m} = 2\n", "mixed"),
+    ("for {n} in ___:\n    pass", "for {m} in xs:\n    print({m})\n", "for"),
+    ("lambda {n}: ___", "t = lambda {m}: 0\n", "lambda"),
+    ("f({n}=1)", "f({m}=1)\n", "keyword"),
+    ("import {n}", "import {m}\n", "import"),
+    ("def f():\n    global {n}", "def f():\n    global {m}\n", "global"),
+    ("_v_ = {n}\nprint(_v_)", "k = {m}\nprint(k)\n", "with-var"),
+    ("__e__ + {n}", "t = (a * b) + {m}\n", "with-exp"),
+]
+
+
+def spelling_scope(rng, tier):
+    """yields (pattern, program, tag, is_self)"""
+    names = boundary_spellings()
+    shift = rng.randrange(2)
+    for ti, (pt, st, pos) in enumerate(SPELL_TEMPLATES):
+        for ni, n in enumerate(names):
+            rivals = spelling_rivals(n)
+            if tier == "quick":
+                # half of the positions for every spelling (which half depends on the seed)
+                if (ti + ni + shift) % 2:
+                    continue
+                # every spelling in every position against itself and two rivals (which two rotates with position and seed)
+                k = (ti + ni + rng.randrange(len(rivals))) % len(rivals)
+                rivals = [rivals[k]] + ([rivals[(k + 1) % len(rivals)]] if ni % 2 else [])
+            try:
+                pattern = pt.format(n=n)
+                ast.parse(pattern)
+            except SyntaxError:
+                continue
+            for m in [n] + rivals:
+                code = st.format(m=m)
+                try:
+                    ast.parse(code)
+                except SyntaxError:
+                    continue
+                yield pattern, code, "%s:%s" % (pos, "same" if m == n else "other"), False
+            # the program's own text as the pattern (C11: a program matches itself, whatever its names look like)
+            code = st.format(m=n)
+            if tier == "quick" and (ti + ni) % 4 > 1:
+                continue
+            try:
+                ast.parse(code)
+                yield code, code, pos + ":self", True
+            except SyntaxError:
+                pass
+
+
 def merges(seqs):
     """all interleavings of the sequences that keep each sequence's own order"""
     seqs = [s for s in seqs if s]
@@ -1594,7 +1828,7 @@ def mutate_pattern(rng, pattern):
         if isinstance(n, ast.Constant) and k < 0.9:
             n.value = rng.choice([0, 1, 2, 1.0, True, None, "s", "zz", b"q", 3j, ...])
         elif isinstance(n, ast.Name) and k < 0.9:
-            n.id = rng.choice(NAMES + ["_a_", "_b_", "___", "__e__", "zz"])
+            n.id = rng.choice(NAMES + ["_a_", "_b_", "___", "__e__", "zz"] + odd_plain_names()[:: max(1, len(odd_plain_names()) // 6)])
         elif isinstance(n, ast.BinOp) and k < 0.9:
             if rng.random() < 0.5:
                 n.left, n.right = n.right, n.left
